@@ -76,6 +76,7 @@ BankRec(d) ==
       name    |-> StrAtom(d, "name"),
       short   |-> StrAtom(d, "short_name"),
       algo    |-> StrCp(d, "checksum_algo"),
+      algoname |-> StrAtom(d, "checksum_algo"),
       hasalgo |-> HasKey(d, "checksum_algo"),
       wellformed |-> /\ HasKey(d, "country_code") /\ IsStr(Get(d, "country_code"))
                      /\ HasKey(d, "bank_code") /\ IsStr(Get(d, "bank_code"))
